@@ -171,6 +171,14 @@ def s08_monotone_counters(ctx, only_types=None, rule_id='S08'):
             if not writes:
                 continue
             kinds = [w[0] for w in writes]
+            # modular arithmetic on a narrow state counter: the value silently changes meaning when the capacity is reached
+            for kind_, tree_, b_, line_ in writes:
+                for x in walk_tree(tree_):
+                    if x[0] == 'call' and any(x[4].endswith('::' + nm) for nm in ('wrapping_add', 'wrapping_sub', 'wrapping_mul', 'overflowing_add', 'overflowing_sub')) \
+                            and _mentions_self_field(x, fname) and INT_BITS.get(ity, 64) < 64:
+                        r.violate(key + '|wraps-silently', 'field %s: %s is updated with %s in the step function: it wraps after 2^%d steps and every value derived from it '
+                                  'changes meaning' % (key, ity, x[4].rsplit('::', 1)[-1], INT_BITS.get(ity, 64)), b_.file, line_)
+                        break
             r.sample({'field': key, 'type': ity, 'writes': ['%s: %s' % (k, tree_str(t)[:90]) for k, t, _, _ in writes][:4]})
             if 'increment' in kinds and all(k == 'increment' for k in kinds):
                 bits = INT_BITS.get(ity, 64)
